@@ -255,6 +255,14 @@ func run(start time.Time) (code int) {
 				}
 			}()
 			x.verifyFunction(fn, fc, prop, rep, work, timeout)
+			// a call-site clause that was applied to no call says nothing: reported (not an alarm: the call may be gone)
+			for _, cl := range append(append([]*Clause{}, fc.CallRequires...), fc.CallAssumes...) {
+				if cl.Matched == 0 {
+					msg := fmt.Sprintf("call-site clause of %s matched no call: %s %s", shortKey(fc.Key), cl.CbName, trunc(cl.Text, 60))
+					x.note(msg)
+					fmt.Printf("NOTE property=%s %s\n", prop, msg)
+				}
+			}
 		}()
 		allObls = append(allObls, x.obls[nBefore:]...)
 	}
